@@ -34,7 +34,7 @@ def fval(t):
     return (100.0 + t) + (200.0 + t)
 
 
-async def scenario(pattern, close_at, skew, late):
+async def scenario(pattern, close_at, skew, late, with_q=False, known=None):
     """pattern[t] in 'V' (valid) / 'N' (None) / 'A' (NaN); close_at: step after which the primary stream is closed (or None);
     skew: the fallback inputs of step t are sent `skew` steps before (+) / after (-) the primary sample of step t;
     late: the fallback inputs deliver nothing for steps earlier than (their subscription step + late)."""
@@ -66,6 +66,11 @@ async def scenario(pattern, close_at, skew, late):
     fallback = FallbackFormulaMetricFetcher(Gen())
     b = FormulaBuilder("term", Quantity)
     b.push_metric("P", pchan.new_receiver(limit=50), nones_are_zeros=False, fallback=fallback)
+    qchan = Broadcast(name="plain")
+    if with_q:          # a second, plain term Q = 5000 + t, delivered with the primary's steps and never failing
+        b.push_oper("+")
+        b.push_metric("Q", qchan.new_receiver(limit=50), nones_are_zeros=False)
+    qtx = qchan.new_sender()
     eng = b.build()
     out = eng.new_receiver()
     got = []
@@ -99,6 +104,8 @@ async def scenario(pattern, close_at, skew, late):
             for k, tx in enumerate(itx):
                 await tx.send(Sample(T0 + timedelta(seconds=t_f), Quantity((100.0 if k == 0 else 200.0) + t_f)))
             await settle()
+        if with_q and 0 <= t_p < N:
+            await qtx.send(Sample(T0 + timedelta(seconds=t_p), Quantity(5000.0 + t_p)))
         if 0 <= t_p < N and not closed:
             kind = pattern[t_p]
             v = Quantity(pval(t_p)) if kind == "V" else (None if kind == "N" else Quantity(math.nan))
@@ -121,22 +128,38 @@ async def scenario(pattern, close_at, skew, late):
     fb_first = fb_sent[0] if fb_sent else None
     for s, t in zip(got, stamps):
         have = None if s.value is None else s.value.base_value
+        if have is not None and with_q:
+            have -= 5000.0 + t          # what is left must be the term's value of step t
         p_ok = pattern[t] == "V" and (close_at is None or t <= close_at)
         if have is not None:
             want = pval(t) if p_ok else fval(t)
             if close_at is not None and t == close_at and abs(have - fval(t)) <= 1e-6:
                 continue        # the hand-over step re-emitted from the fallback (see above): a value of ITS timestamp
             if abs(have - want) > 1e-6:
+                # known finding C19-closed-primary-misaligns-other-terms: once the primary stream is CLOSED, the term is fed
+                # from the fallback without being aligned with the other terms of the formula (the failing round has
+                # consumed one of their samples, and later rounds take the fallback's latest sample whatever its step):
+                # the sample pairs the plain term of step t with the fallback's sum of another step.  Only that shape.
+                raw = have + 5000.0 + t if with_q else have
+                pairs = [(a, u) for a in range(N) for u in range(N) if a != u and (a == t or u == t)
+                         and abs(raw - (5000.0 + a + fval(u))) <= 1e-6] if with_q else []
+                if with_q and close_at is not None and t >= close_at and known is not None and pairs:
+                    a, u = min(pairs, key=lambda au: abs(au[0] - au[1]))
+                    known.setdefault("C19-closed-primary-misaligns-other-terms",
+                                     f"primary stream closed after step {close_at}: the sample stamped step {t} pairs the plain term "
+                                     f"of step {a} with the fallback's sum of step {u} (primary {pattern}, fallback ahead by {skew}, "
+                                     f"fallback start delay {late})")
+                    continue
                 src = "the primary's value of that step" if p_ok else "the fallback's sum of that step"
-                return (f"sample stamped step {t} carries {have}; {src} is {want} (primary 1000+t, fallback 300+2t): a value of "
-                        f"another source or another timestamp")
+                return (f"sample stamped step {t} carries {have}{' (after subtracting the plain term 5000+t of that step)' if with_q else ''}; "
+                        f"{src} is {want} (primary 1000+t, fallback 300+2t): a value of another source or another timestamp")
         elif p_ok:
             return f"sample stamped step {t} is None although the primary delivered a valid value for that step"
         elif fb_first is not None and t >= max(fb_first, first_bad + STARTUP) and skew >= 0 and close_at is None:
             return (f"sample stamped step {t} is None: the primary is invalid there, the fallback has been delivering since step "
                     f"{fb_first} (first failure at step {first_bad}) - the term should carry the fallback value {fval(t)}")
     # no unbounded outage: if the primary fails for good and the fallback delivers, samples keep coming
-    if first_bad is not None and skew >= 0:
+    if first_bad is not None and skew >= 0 and not (with_q and close_at is not None):
         tail = [t for t in range(N) if t >= first_bad + STARTUP + late]
         missing = [t for t in tail if t not in stamps]
         if tail and len(missing) == len(tail):
@@ -149,28 +172,30 @@ def run(req):
     logging.disable(logging.CRITICAL)
     t0 = time.time()
     evaluations, failure, samples = 0, None, []
+    known = {}
     patterns = ["VVVVVVVVVV", "VVNNNNNNNN", "NNNNNNNNNN", "VVNNVVNNVV", "VAAAVVVVVV", "VVVNVNVNVV", "VVVVVNNNNN"]
     closes = [None, 1, 4]
-    cases = [(p, c, sk, la) for p in patterns for c in closes for sk in (0, 1, 3, -1) for la in (0, 1, 2)]
-    for pattern, close_at, skew, late in cases:
+    cases = [(p, c, sk, la, q) for q in (False, True) for p in patterns for c in closes for sk in (0, 1, 3, -1) for la in (0, 1, 2)]
+    for pattern, close_at, skew, late, with_q in cases:
         evaluations += 1
         try:
-            f = asyncio.run(scenario(pattern, close_at, skew, late))
+            f = asyncio.run(scenario(pattern, close_at, skew, late, with_q, known))
         except Exception as e:  # pylint: disable=broad-except
             f = f"scenario raised {type(e).__name__}: {e}"
         if len(samples) < 2:
             samples.append({"primary": pattern, "primary_closes_after_step": close_at, "fallback_ahead_by": skew,
-                            "fallback_start_delay": late})
+                            "fallback_start_delay": late, "second_plain_term": with_q})
         if f:
             failure = (f, {"primary": pattern, "primary_closes_after_step": close_at, "fallback_ahead_by": skew,
-                           "fallback_start_delay": late})
+                           "fallback_start_delay": late, "second_plain_term": with_q})
             break
     logging.disable(logging.NOTSET)
-    out = {"status": "failed" if failure else "ok", "evaluations": evaluations, "distinct": evaluations, "known": {},
+    out = {"status": "failed" if failure else "ok", "evaluations": evaluations, "distinct": evaluations, "known": known,
            "samples": samples, "wall_s": round(time.time() - t0, 1), "exhaustive": failure is None,
            "rule": "one term with fallback inv0 + inv1 on the real engine: 7 validity patterns of the primary (valid / None / NaN, "
                    "failing for good, flapping, recovering) x primary stream closing never / after step 1 / 4 x fallback inputs "
-                   "0 / 1 / 3 steps ahead or 1 behind x fallback inputs starting 0-2 steps after subscription; 10 steps; all distinct"}
+                   "0 / 1 / 3 steps ahead or 1 behind x fallback inputs starting 0-2 steps after subscription x the term alone / plus a "
+                   "second plain term; 10 steps; all distinct"}
     if failure:
         out["failure"] = {"clause": "fallback value of the same timestamp when the primary is invalid, primary when valid", "detail": failure[0]}
         out["inputs"] = failure[1]
